@@ -274,7 +274,10 @@ def eval_single(ctx, case):
         bad = [n for n, d in (("file", file_td), ("A0", mock_tds[0]), ("A1", mock_tds[1]), ("B", mock_tds[2])) if not validate(case["schema"], d)]
         accept, why = (not bad), ("all levels conform" if not bad else "violates at %s" % bad)
     env = {"SSL_CERT_FILE": server.ca} if tk == "https" else {}
-    r = core.run_mockery(ctx, root, [], env_extra=env, timeout=300)
+    r = core.run_mockery(ctx, root, [], env_extra=env, timeout=300, block_window=20)
+    if r.blocked:
+        return Verdict.violated("the run neither failed nor finished: every thread of the process slept without consuming CPU for 20 consecutive samples (blocked on a channel, lock or pipe)",
+                                dict(r.brief(), config=cfg), ["blocked"])
     if r.timed_out:
         return Verdict.inconclusive("watchdog")
     outp = os.path.join(root, "out/pa/m.go")
@@ -325,7 +328,10 @@ def eval_shared(ctx, case):
                            MOD + "/pb": {"interfaces": {"C": {"config": {"template-schema": base + "/sb.json"}}}, "config": {"template-data": tdb}}}
     open(os.path.join(root, ".mockery.yml"), "w").write(json.dumps(cfg))
     env = {"SSL_CERT_FILE": server.ca} if case["tkind"] == "https" else {}
-    r = core.run_mockery(ctx, root, [], env_extra=env, timeout=300)
+    r = core.run_mockery(ctx, root, [], env_extra=env, timeout=300, block_window=20)
+    if r.blocked:
+        return Verdict.violated("the run neither failed nor finished: every thread of the process slept without consuming CPU for 20 consecutive samples (blocked on a channel, lock or pipe)",
+                                dict(r.brief(), config=cfg), ["blocked"])
     if r.timed_out:
         return Verdict.inconclusive("watchdog")
     wa, wb = os.path.exists(os.path.join(root, "out/pa/m.go")), os.path.exists(os.path.join(root, "out/pb/m.go"))
@@ -372,7 +378,10 @@ def eval_require(ctx, case):
     cfg = {"formatter": "noop", "dir": "out", "filename": "m_{{.InterfaceName}}.go", "pkgname": "mocks", "template": tref,
            "packages": {MOD + "/pa": {"interfaces": ifs}}}
     open(os.path.join(root, ".mockery.yml"), "w").write(json.dumps(cfg))
-    r = core.run_mockery(ctx, root, [], timeout=300)
+    r = core.run_mockery(ctx, root, [], timeout=300, block_window=20)
+    if r.blocked:
+        return Verdict.violated("the run neither failed nor finished: every thread of the process slept without consuming CPU for 20 consecutive samples (blocked on a channel, lock or pipe)",
+                                dict(r.brief(), config=cfg), ["blocked"])
     if r.timed_out:
         return Verdict.inconclusive("watchdog")
     accept = case["schema_present"] and case["b_conforms"]
